@@ -142,6 +142,11 @@ def check_conv(ctx, case):
         o, u, _ = C.flags(y)
         if (o, u) != (eo, eu):
             ctx.fail('%s/flags' % sig, one, {'expected': [eo, eu], 'got': [o, u]})
+            continue
+        # what the user reads back from the destination is the exact value of the stored code
+        ok2, rb = ctx.guard(one, C.values, y, sig_prefix=sig + '/readback/')
+        if ok2 and rb != [M.value_of(k, fd[2]) for k in ecodes]:
+            ctx.fail('%s/readback' % sig, one, {'codes': ecodes, 'read': [str(v) for v in rb], 'vdtype': str(y.vdtype)})
 
 
 def check_chain(ctx, case):
